@@ -61,8 +61,10 @@ type Contract struct {
 	LoopInv   []*Clause
 	LoopDec   []*Clause
 	FuncParams map[string]FuncParam // function-typed parameters with a behavioural contract
+	MapSpecs  map[string]*Clause // assumed property of lookups in a map-typed parameter (key, value, ok)
 	LoopCand  []*Clause // candidate invariants: kept per loop only if inductive (Houdini)
 	Inline    bool
+	Extern    bool // assumed contract of an external (standard library) function
 	Trusted   bool   // contract assumed, body not verified
 	Opaque    bool   // never inline; without ensures the result is havocked
 	NoVerify  bool   // body not verified and not claimed (documentation only)
@@ -101,8 +103,8 @@ func NewSpecs() *Specs {
 }
 
 var clauseKeywords = map[string]bool{
-	"pred": true, "func": true, "requires": true, "ensures": true, "preserves": true, "loop": true,
-	"funcparam": true, "inline": true, "trusted": true, "opaque": true, "noverify": true, "modifies": true, "pure": true, "arith": true, "axiom": true,
+	"pred": true, "func": true, "extern": true, "requires": true, "ensures": true, "preserves": true, "loop": true,
+	"funcparam": true, "mapspec": true, "inline": true, "trusted": true, "opaque": true, "noverify": true, "modifies": true, "pure": true, "arith": true, "axiom": true,
 }
 
 // LoadSpecs reads every contracts_verif.go under repo (falling back to mirror for packages lacking one).
@@ -239,6 +241,11 @@ func (S *Specs) parseFile(path string) error {
 			}
 			S.Axioms = append(S.Axioms, &Clause{Kind: "axiom", Facet: facet, Tags: tags, Label: label, E: e, Src: body, File: path, Line: rc.line})
 			cur = nil
+		case "extern":
+			// assumed contract of a function outside the repository, keyed by its full name
+			name := strings.TrimSpace(rest)
+			cur = &Contract{Func: name, File: path, Line: rc.line, Trusted: true, Extern: true}
+			S.Contracts["extern:"+name] = cur
 		case "func":
 			name := strings.TrimSpace(rest)
 			if k := strings.IndexAny(name, " ("); k >= 0 {
@@ -265,6 +272,20 @@ func (S *Specs) parseFile(path string) error {
 					cur.FuncParams = map[string]FuncParam{}
 				}
 				cur.FuncParams[f[0]] = FuncParam{Like: short + "." + f[2], Recv: f[4]}
+			case "mapspec":
+				// mapspec PARAM: expr over key, value, ok (and locals at the lookup)
+				k := strings.Index(rest, ":")
+				if k < 0 {
+					return fail(fmt.Errorf("mapspec PARAM: expr"))
+				}
+				e, err := ParseExpr(rest[k+1:])
+				if err != nil {
+					return fail(err)
+				}
+				if cur.MapSpecs == nil {
+					cur.MapSpecs = map[string]*Clause{}
+				}
+				cur.MapSpecs[strings.TrimSpace(rest[:k])] = &Clause{Kind: "mapspec", Facet: "S", E: e, Src: strings.TrimSpace(rest[k+1:]), File: path, Line: rc.line}
 			case "inline":
 				cur.Inline = true
 			case "trusted":
